@@ -36,6 +36,7 @@ type Atom struct {
 	Unit     *Unit          // analysis unit (function body or literal)
 	Calls    []*ast.CallExpr // the call expressions behind Callees (same order not guaranteed)
 	Via      string         // non-empty when inherited from an unexported helper
+	Conj     string         // shapes of sibling leaves that must hold jointly (conjunctive guard)
 }
 
 // Sig is the inventory signature (without strength).
@@ -48,6 +49,9 @@ func (a *Atom) Sig() string {
 		}
 	} else {
 		s = "{" + a.Shape + "}"
+	}
+	if a.Conj != "" {
+		s += " " + a.Conj
 	}
 	if a.Tail {
 		s = "tail " + s
@@ -602,10 +606,13 @@ var errorIface = types.Universe.Lookup("error").Type().Underlying().(*types.Inte
 type leafInfo struct {
 	expr     ast.Expr
 	failTrue bool
+	conj     []ast.Expr // sibling leaves that must hold jointly for the failure edge to be taken
 }
 
-// splitLeaves decomposes cond into leaves that each individually can trigger the failure
-// successor (disjunctive position) or jointly (conjunctive position, conj=true).
+// splitLeaves decomposes cond into leaves. In disjunctive position (A || B failing when true, or
+// A && B failing when false) every leaf alone triggers the failure edge; in conjunctive position
+// the leaves trigger it only jointly and each records its siblings (a guard weakened by
+// `&& extra` changes signature).
 func splitLeaves(e ast.Expr, failTrue bool, out *[]leafInfo) {
 	e = ast.Unparen(e)
 	switch x := e.(type) {
@@ -615,13 +622,33 @@ func splitLeaves(e ast.Expr, failTrue bool, out *[]leafInfo) {
 			return
 		}
 	case *ast.BinaryExpr:
-		if x.Op == token.LAND || x.Op == token.LOR {
+		disj := (x.Op == token.LOR && failTrue) || (x.Op == token.LAND && !failTrue)
+		conj := (x.Op == token.LAND && failTrue) || (x.Op == token.LOR && !failTrue)
+		if disj {
 			splitLeaves(x.X, failTrue, out)
 			splitLeaves(x.Y, failTrue, out)
 			return
 		}
+		if conj {
+			var l, r []leafInfo
+			splitLeaves(x.X, failTrue, &l)
+			splitLeaves(x.Y, failTrue, &r)
+			for i := range l {
+				for _, o := range r {
+					l[i].conj = append(l[i].conj, o.expr)
+				}
+			}
+			for i := range r {
+				for _, o := range l {
+					r[i].conj = append(r[i].conj, o.expr)
+				}
+			}
+			*out = append(*out, l...)
+			*out = append(*out, r...)
+			return
+		}
 	}
-	*out = append(*out, leafInfo{e, failTrue})
+	*out = append(*out, leafInfo{expr: e, failTrue: failTrue})
 }
 
 func (u *Unit) calleeKey(call *ast.CallExpr) string {
@@ -836,7 +863,7 @@ func (u *Unit) extractAtoms(g *GuardEngine) {
 		if tt := u.Info.TypeOf(cond); tt != nil && isBoolType(tt) {
 			splitLeaves(cond, failTrue, &leaves)
 		} else {
-			leaves = []leafInfo{{cond, failTrue}}
+			leaves = []leafInfo{{expr: cond, failTrue: failTrue}}
 		}
 		must := pd[b]
 		for _, lf := range leaves {
@@ -856,6 +883,14 @@ func (u *Unit) extractAtoms(g *GuardEngine) {
 			}
 			sort.Strings(a.Callees)
 			a.Shape = u.leafShape(lf.expr, lf.failTrue)
+			if len(lf.conj) > 0 {
+				cs := []string{}
+				for _, c := range lf.conj {
+					cs = append(cs, u.leafShape(c, lf.failTrue))
+				}
+				sort.Strings(cs)
+				a.Conj = "&&(" + strings.Join(cs, ",") + ")"
+			}
 			u.Atoms = append(u.Atoms, a)
 		}
 	}
